@@ -3,8 +3,8 @@ package main
 import (
 	"fmt"
 	"go/ast"
-	"regexp"
 	"go/types"
+	"regexp"
 	"sort"
 	"strings"
 	"time"
